@@ -22,6 +22,35 @@ EXPLANATION = (
 
 # ---------------------------------------------------------------------------------------------- R1
 
+def checkpoint_realigned(P, D, pw):
+    """After a checkpoint restore, every return path of each restoring function passes an aligning write for S::MIN_ALIGN."""
+    body = pw.body
+    users = []          # (body, site after which the re-alignment has to follow)
+    if body.item["name"] == "reset_within_chunk":
+        for b in P.fn_bodies():
+            for s, t in b.calls():
+                if any(tid == body.id for tid, _ in P.callee_targets(t["f"])):
+                    users.append((b, s))
+    else:
+        users.append((body, pw.site))
+    if not users:
+        return False, "checkpoint restore without a caller to re-align it"
+    for b, s in users:
+        al_blocks = []
+        for q in D.sites:
+            if q.body.id != b.id:
+                continue
+            for cls, detail in c01.classify_value(D, q):
+                if cls == "aligner" and align_at_least_min(detail[1]):
+                    al_blocks.append(q.site.bb)
+        ok, _ = b.must_pass(s, al_blocks, exits=(RET,), cleanup=False)
+        if not ok:
+            return False, (f"the checkpoint address is restored in {b.path} and a return path follows without re-aligning the "
+                           "position to S::MIN_ALIGN: a checkpoint taken under a lower minimum alignment (inside aligned::<N>, or "
+                           "before entering it) leaves the position mis-aligned for the alignment in force")
+    return True, f"checkpoint address, re-aligned to S::MIN_ALIGN on every path after the restore ({len(users)} restoring function(s))"
+
+
 def r1_min_aligned(ctx, P, D, R="C10.R1"):
     ctx.rule(R, "every written position value is min-aligned by construction")
     n = 0
@@ -72,6 +101,11 @@ def r1_min_aligned(ctx, P, D, R="C10.R1"):
                     ok = pw.callee_name in c01.ALIGNING_WRAPPERS
                     why = f"block end through the aligning wrapper {pw.callee_name}" if ok else \
                         "block end written without alignment"
+            elif cls == "checkpoint":
+                # a checkpoint address was aligned for the minimum alignment in force when it was *taken*; a view with
+                # another minimum alignment (aligned::<N>, with_settings) may restore it: every path after the restore
+                # must re-align the position for the S of the restoring allocator
+                ok, why = checkpoint_realigned(P, D, pw)
             elif cls == "raw":
                 ok, why = False, "value of unknown provenance"
             ctx.inst(R, b.path, ok, f"{pw.callee_name}({detail if isinstance(detail, str) else detail[2]}): {why}",
